@@ -168,6 +168,12 @@ def skin(cid, gid):
               '<v>0 0 1 0 0 1 1 1 1 2</v></vertex_weights></skin></controller>' % (cid, cid))
 
 
+def skin_empty(cid, gid):
+    """a skin that influences no vertex: empty <vcount> and <v> (len(skin) == 0)"""
+    return skin(cid, gid).replace('<vertex_weights count="4">', '<vertex_weights count="0">') \
+        .replace('<vcount>1 1 2 1</vcount>', '<vcount></vcount>').replace('<v>0 0 1 0 0 1 1 1 1 2</v>', '<v></v>')
+
+
 def morph(cid, base, targets):
     return ('<controller id="%s"><morph source="#%s" method="NORMALIZED">' % (cid, base)
             + nsource(cid + '-t', targets, 'IDREF_array', 'MORPH_TARGET')
@@ -291,7 +297,8 @@ def doc_scopes():
     body += '<library_materials>' + material('matA', 'fxA') + material('matB', 'fxB') + '</library_materials>\n'
     body += ('<library_geometries>' + geometry('gA', [triangles('gA')], with_uv=False)
              + geometry('gB', [polylist('gB')], with_uv=False) + '</library_geometries>\n')
-    body += '<library_controllers>' + skin('skA', 'gA') + skin('skB', 'gB') + '</library_controllers>\n'
+    body += ('<library_controllers>' + skin('skA', 'gA') + skin('skB', 'gB') + morph('moE', 'gA', []) + skin_empty('skE', 'gB')
+             + '</library_controllers>\n')
     body += ('<library_nodes><node id="lnA" name="lnA">' + inst_geom('gA', (('m0', 'matA'),)) + '</node>'
              '<node id="lnB"><scale>1 2 3</scale>' + inst_geom('gB', (('m0', 'matB'),)) + '<instance_node url="#lnA"/></node>'
              '</library_nodes>\n')
@@ -300,7 +307,8 @@ def doc_scopes():
              '<node id="a1"><translate>1 2 3</translate>' + inst_ctrl('skA', (('m0', 'matB'),))
              + '<node id="a1sub"><rotate>0 0 1 90</rotate><instance_node url="#a0"/></node>'
              '<instance_node url="#lnA"/></node></visual_scene>'
-             '<visual_scene id="vsB"><node id="b0">' + inst_ctrl('skB', (('m0', 'matA'),)) + '</node>'
+             '<visual_scene id="vsB"><node id="b0">' + inst_ctrl('skB', (('m0', 'matA'),)) + inst_ctrl('moE', ())
+             + inst_ctrl('skE', (('m0', 'matB'),)) + '</node>'
              '<node id="b1"><instance_node url="#b0"/></node></visual_scene>'
              '</library_visual_scenes>\n')
     body += '<scene><instance_visual_scene url="#vsB"/></scene>\n'
